@@ -111,6 +111,12 @@ class LoopMixin:
                 mi, cnode, fnode = m
                 pf = PyFunc(fnode, None, mi, cnode.name + ".__iter__", bound_self=it, cls=cnode.name)
                 it = self.call(py(pf, "func"), [], {}, s.iter, frame)
+        if it.k == "py" and isinstance(it.r, tuple) and it.r and it.r[0] == "enumerate" and not self.in_spec \
+                and it.r[1].k == "val" and it.r[1].hint is None and self.tag(it.r[1]) is None:
+            v = it.r[1].r
+            self.require(z3.And(Val.is_ref(v), cls_of(Val.a(v)) == CLASSES.addr("list")), "TypeError",
+                         f"iterating {ast.unparse(s.iter)}")
+            it = py(("enumerate", TV("val", v, "list")), "iter")
         if it.k == "val" and it.hint is None and self.tag(it) is None and not self.in_spec:
             # a value of unknown type is iterated: it has to be a list (anything else that textX
             # iterates carries a type hint); a non-iterable raises TypeError (implicit exception)
@@ -295,6 +301,35 @@ class LoopMixin:
             self.apply_hint_facts(tv)
             self.bind(name, tv, frame)
 
+    def check_loop_protect(self, sp, head_heap, env, label):
+        """FRAME of a loop that may modify anything except `protect`: one iteration leaves each
+        protected location unchanged (one arbitrary index per heap array)."""
+        if not getattr(sp, "protect", None) or "*" not in sp.modifies:
+            return
+        h0, h1 = head_heap, self.heap
+        saved = self.heap
+        self.heap = h0
+        try:
+            locs = []
+            for m in sp.protect:
+                locs.extend(self.eval_locs(m, env=env))
+        finally:
+            self.heap = saved
+        a = fresh("lp_a", core.IntS)
+        for field, sort in core.HEAP_FIELDS.items():
+            if h0.cur[field].get_id() == h1.cur[field].get_id():
+                continue
+            idx = (a, fresh("lp_k", sort.range().domain())) if field in core.NESTED else (a,)
+            cs = [c for c in (self.loc_match(p, field, idx) for p in locs) if c is not None]
+            if not cs:
+                continue
+            facts = []
+            v1 = h1.read(field, idx, facts)
+            v0 = h0.read(field, idx, facts)
+            goal = z3.Implies(z3.And(z3.Or(*cs), a < self.next_addr, *facts), v1 == v0)
+            self.oblige("INV-PRES", f"{label}.protect.{field}", goal,
+                        f"one iteration leaves {sp.protect} unchanged ({field})", None)
+
     def check_pure(self, sp, head_heap, label):
         if not sp.pure:
             return
@@ -378,6 +413,7 @@ class LoopMixin:
                 self.check_clauses(sp.inv, env2, "INV-PRES", label, extra=extra)
                 self.check_preserved(sp.preserves, head_ver, "INV-PRES", label)
                 self.check_pure(sp, head_heap, label)
+                self.check_loop_protect(sp, head_heap, env, label)
                 raise PathEnd("loop body done")
             return  # break: skip else
         self.exec_block(s.orelse, frame)
@@ -541,6 +577,7 @@ class LoopMixin:
                 self.check_clauses(sp.inv, env2, "INV-PRES", label, extra=extra)
                 self.check_preserved(sp.preserves, head_ver, "INV-PRES", label)
                 self.check_pure(sp, head_heap, label)
+                self.check_loop_protect(sp, head_heap, env, label)
                 if var0 is not None:
                     from .spec import SpecEval
 
@@ -557,7 +594,7 @@ class LoopMixin:
     # -------------------------------------------------------- obligations
     def oblige(self, kind, label, goal, text, prop=None, where=None):
         only = self.opts.get("prop")
-        if only is not None and prop is not None and prop != only:
+        if only is not None and prop is not None and only not in prop.split("|"):
             return None  # clause of another property served by this unit: decided by that check
         ob = Obligation(self.unit.name if self.unit else "?", kind, label,
                         prop,
@@ -796,6 +833,10 @@ class LoopMixin:
                 z3.Select(hasrow, kq) == z3.And(srchas, cond),
                 z3.Implies(z3.Select(hasrow, kq), z3.Select(valrow, kq) == val))))
             return TV("val", mk_ref(R), "dict")
+        if kind == "gen" and g.ifs and it.k == "val" and self.is_listlike(it) and isinstance(n.elt, ast.Name) \
+                and isinstance(g.target, ast.Name) and n.elt.id == g.target.id:
+            # (x for x in L if c(x)): kept lazy; next(...) takes the first element satisfying c
+            return py(("lazygen", n, frame, it), "iter")
         if kind == "list" and is_items:
             # [e(k, v) for k, v in D.items() if c(k, v)]: a fresh list with one element per selected
             # key.  Skolem functions keyf : positions -> keys (injective) and posf : keys -> positions.
@@ -886,6 +927,36 @@ class LoopMixin:
         return TV("bool", z3.simplify(z3.And(*[self.truthy(x) for x in items])))
 
     def bi_next(self, args, kw, n, frame):
+        a0 = args[0]
+        if a0.k == "py" and isinstance(a0.r, tuple) and a0.r and a0.r[0] == "lazygen":
+            # next(x for x in L if c(x)) over a symbolic list with a pure condition (A-COMP-PURE): the first
+            # element that satisfies c, StopIteration when none does
+            _, gen, gframe, it = a0.r
+            g = gen.generators[0]
+            L = self.as_addr(it)
+            ln = self.hread("llen", (L,))
+            row = z3.Select(self.heap.cur["lelem"], L)
+            q = fresh("nq", core.IntS)
+            xq = TV("val", z3.Select(row, q), self.elem_hint(it))
+            (outs, side) = self._pure_on(gframe, g.target, xq, list(g.ifs))
+            cond_q = z3.And(*[self.truthy(c) for c in outs])
+            k = fresh("next_idx", core.IntS)
+            found = self.decide(z3.And(0 <= k, k < ln), f"next@{getattr(n, 'lineno', '?')}")
+            if found:
+                xk = TV("val", z3.Select(row, k), self.elem_hint(it))
+                (outs_k, side_k) = self._pure_on(gframe, g.target, xk, list(g.ifs))
+                self.assume_all(side_k)
+                self.assume(z3.And(*[self.truthy(c) for c in outs_k]))
+                self.assume(z3.ForAll([q], z3.Implies(z3.And(0 <= q, q < k), z3.And(*side, z3.Not(cond_q))),
+                                      patterns=[z3.Select(row, q)]))
+                self.closed(xk.r)
+                self.apply_hint_facts(xk)
+                return xk
+            self.assume(z3.ForAll([q], z3.Implies(z3.And(0 <= q, q < ln), z3.And(*side, z3.Not(cond_q))),
+                                  patterns=[z3.Select(row, q)]))
+            if len(args) > 1:
+                return args[1]
+            raise self.implicit("StopIteration", "next")
         items = self.iter_items(args[0])
         if items is None:
             raise Unsupported("next() over symbolic")
